@@ -53,10 +53,11 @@ extern int mpt_path_del(MPT_STRUCT(path) *path)
 		MPT_STRUCT(array) arr;
 		arr._buf = (void *) path->base;
 		pos = (--arr._buf)->_used;
-		if (len > pos) {
+		/* data of consumed elements stays in front of path */
+		if ((path->off + len) > pos) {
 			return MPT_ERROR(BadValue);
 		}
-		pos = len;
+		pos = path->off + len;
 		if (!(data = mpt_array_slice(&arr, 0, pos))) {
 			return MPT_ERROR(BadOperation);
 		}
